@@ -148,8 +148,16 @@ impl Cell for str {
                 cols += c;
             }
             // Don't add the delimiter if we just trimmed whitespace.
-            if self[boundary..].trim().is_empty() {
-                self[..boundary + 1].to_owned()
+            let rest = &self[boundary..];
+            if rest.trim().is_empty() {
+                // Keep one more cell of whitespace in place of the delimiter,
+                // but only if it fits, and only at a grapheme boundary.
+                match rest.graphemes(true).next() {
+                    Some(g) if cols + Cell::width(g) <= width => {
+                        self[..boundary + g.len()].to_owned()
+                    }
+                    _ => self[..boundary].to_owned(),
+                }
             } else {
                 format!("{}{delim}", &self[..boundary])
             }
